@@ -113,6 +113,21 @@ def check(run):
                  "random histories (length 6-40) of /i /o /io attempts with equal / prefix-related / case-variant / empty / NUL / long IDs, "
                  "endings (EOF, errors, client cancel, input closed), releases in every order, lines, output, shutdown; biased to stay near "
                  "full attachment and inside tear-down windows")
+    # time passes between the events (5 s, 6 s, a minute): whatever housekeeping the broker does on timers must not open a slot that is held
+    tm = []
+    A = lambda s_, d, k: {"op": "admit", "s": s_, "d": d, "key": B.K(k), "wk": "plain", "wfail": -1, "ffail": -1}
+    for pause in (1000, 5000, 6000, 60000):
+        for first_end in ("out", "in"):
+            ops = [A(1, "in", b"one"), A(2, "out", b"one")]
+            ops += [{"op": "data", "s": 2, "d": "", "err": "eof"}, {"op": "release", "s": 2}, {"op": "release", "s": 1}] if first_end == "out" else \
+                   [{"op": "cancel", "s": 1}, {"op": "release", "s": 1}, {"op": "release", "s": 2}]
+            ops += [A(3, "in", b"two"), A(4, "out", b"two"), {"op": "sleep", "ms": pause},
+                    A(5, "in", b"two"), A(6, "out", b"two"), A(7, "in", b"other"), {"op": "line", "l": B.K(b"probe")},
+                    {"op": "sleep", "ms": pause}, A(8, "out", b"two"), {"op": "data", "s": 4, "d": B.K(b"still the one"), "err": ""}]
+            tm.append(ops)
+    B.run_stream(run, binp, "timepasses", 1, tm, CLAUSES,
+                 "a shell comes and goes, the next one attaches, then 1 s / 5 s / 6 s / a minute pass (virtual clock) before duplicates and strangers try "
+                 "again: they are refused exactly as without the pause")
     # refusals while the operator's terminal is stalled: the notice waits for room, it is not dropped
     st = []
     for cap in (1, 2, 3):
@@ -130,6 +145,22 @@ def check(run):
                  "direction / no ID) arrives, then the terminal catches up: by the end every attempt that was not attached has its refusal notice",
                  judge="judge_c01s")
     http_stream(run)
+    # the last hop: a refusal notice queued behind shell output reaches the TERMINAL also while the operator has muted that output
+    import c19
+    okm, mbin, mlog = vlib.build_overlay_test(run.rundir, "lib/opshell")
+    if okm:
+        mc = [{"i": k, "events": e} for k, e in enumerate(c19.backlog(run.rng, 6 if run.tier == "quick" else 200)[:60 if run.tier == "quick" else 2000])]
+        rc3, out3, mres = c19.run_cases(run, mbin, mc, "mutedrefusals")
+        if rc3 == 0 and len(mres) == len(mc) and not any(r.get("fail") for r in mres):
+            vlib.judge_stream(run, "mutedrefusals", c19.IMPORTS, "case", mc, mres, c19.term,
+                              {1: "a notice (e.g. a refusal) queued behind shell output was not written to the terminal while that output was muted with Ctrl+O",
+                               10: "mute model differs"}, (0,),
+                              "backlogs in the operator channel while muted (a notice, a chunk of shell output, another notice queued while the terminal is busy): "
+                              "the chunk is dropped, both notices are written by the real Shell (virtual time, pty child)", key_fn=lambda c: json.dumps(c["events"]))
+        else:
+            run.oblige("muted refusals: harness ran under a pty", False, "rc=%s %s" % (rc3, out3[-600:].decode(errors="replace")))
+    else:
+        run.oblige("opshell harness builds against /repo", False, mlog)
     B.run_stream(run, binp, "goneclients", 1, B.gone_clients(run.rng, 60 if run.tier == "quick" else 1500), CLAUSES,
                  "attempts whose client has already hung up when they reach admission (request context done beforehand) on an idle, half attached "
                  "and fully attached broker, with the right, a wrong and an empty ID: each is still either attached (and then logged) or refused "
